@@ -452,7 +452,7 @@ func wireSpec(sent []sentFrame, base int, g refcodec.Frame) string {
 }
 
 func runTamper(c *Ctx) error {
-	c.Res.Rule = "honest AES-GCM transcripts (1–4 messages, single/multi-frame, either direction, with/without cleartext prelude) × single faults (every bit of the byte stream for the short transcripts; every frame dropped/duplicated/swapped/replayed/shortened/cut; IV stripped or shifted; forged frames of length 0,1,15,16,17,40 with either flag at every position; end-flag flips) + random 2–3-fault combinations; + reflection (the receiving endpoint's own protected frames fed back to it at any position, IV kept / stripped / the first frame's IV put in front, with and without cleartext exchanged before the key); the harness is the on-path editor between two real keyed streams; distinct by (transcript, fault list); non-trivial = the tampered byte stream differs from the honest one"
+	c.Res.Rule = "honest AES-GCM transcripts (1–4 messages, single/multi-frame, either direction, with/without cleartext prelude) × single faults (every bit of the byte stream for the short transcripts; every frame dropped/duplicated/swapped/replayed/shortened/cut; IV stripped or shifted; forged frames of length 0,1,15,16,17,40 with either flag at every position; end-flag flips) + random 2–3-fault combinations; + reflection (the receiving endpoint's own protected frames fed back to it at any position, IV kept / stripped / the first frame's IV put in front, with no, different and byte-identical cleartext exchanged each way before the key); + transcripts whose nonce word passes 2^32 (streams restored from a crypto-state blob) with every frame dropped/duplicated/swapped/replayed; the harness is the on-path editor between two real keyed streams; distinct by (transcript, fault list); non-trivial = the tampered byte stream differs from the honest one"
 	var cases []Case
 	nT := c.Pick(3, 10)
 	for t := 0; t < nT; t++ {
@@ -525,6 +525,26 @@ func runTamper(c *Ctx) error {
 			}
 		}
 	}
+	// nonce word wrap: equal-length single-frame messages around the point where base word + counter
+	// passes 2^32, with every frame dropped / duplicated / swapped / replayed
+	for _, dir := range []bool{true, false} {
+		sp := tamperSpec{dirAB: dir, wrap: true}
+		for i := 0; i < 5; i++ {
+			sp.msgs = append(sp.msgs, [][]byte{randBytes(c, 9)})
+		}
+		probe := tamperRun(c, sp, nil, false, "recvc")
+		cases = append(cases, probe.cs)
+		for i := range probe.frames {
+			fl := [][]fault{{{kind: "drop", i: i}}, {{kind: "dup", i: i}}, {{kind: "swap", i: i}}}
+			for j := 0; j <= len(probe.frames); j++ {
+				fl = append(fl, []fault{{kind: "replay", i: i, j: j}})
+			}
+			for _, fs := range fl {
+				cases = append(cases, tamperRun(c, sp, fs, true, "recvc").cs)
+				c.Count("wrap-iv")
+			}
+		}
+	}
 	// reflection: an endpoint's own outgoing protected frames fed back to it
 	for i := 0; i < c.Pick(120, 1500); i++ {
 		cases = append(cases, reflectRun(c, i))
@@ -543,12 +563,18 @@ func runTamper(c *Ctx) error {
 // start of the direction or after some honest frames from A. Nothing of it may be delivered.
 func reflectRun(c *Ctx, idx int) Case {
 	w := newWorld()
-	prelude := c.Rng.Intn(4) // 0: nothing in clear before the key (both transcript digests equal)
+	// 0: nothing in clear before the key; 4: the SAME bytes each way — in both cases the two
+	// transcript digests are equal and the first-frame AAD is symmetric
+	prelude := c.Rng.Intn(5)
+	hello := randBytes(c, 1+c.Rng.Intn(10))
 	if prelude >= 1 {
-		_ = w.send("A", 1, randBytes(c, 1+c.Rng.Intn(10)))
+		_ = w.send("A", 1, hello)
 		_, _, _ = w.recvf("B")
 	}
-	if prelude >= 2 {
+	if prelude == 4 {
+		_ = w.send("B", 1, hello)
+		_, _, _ = w.recvf("A")
+	} else if prelude >= 2 {
 		_ = w.send("B", 1, randBytes(c, 1+c.Rng.Intn(10)))
 		_, _, _ = w.recvf("A")
 	}
@@ -640,7 +666,7 @@ func reflectRun(c *Ctx, idx int) Case {
 		}
 	}
 	cls := "distinct-digests"
-	if prelude == 0 {
+	if prelude == 0 || prelude == 4 {
 		cls = "equal-digests"
 	}
 	c.Count("reflect:" + cls + ":" + variant)
@@ -658,6 +684,7 @@ type tamperSpec struct {
 	seed    int64
 	dirAB   bool
 	prelude int
+	wrap    bool       // both ends restored from a crypto-state blob whose base IV word is 2 below 2^32
 	msgs    [][][]byte // message → frames
 }
 
@@ -697,14 +724,26 @@ func tamperRun(c *Ctx, sp tamperSpec, fs []fault, count bool, api string) tamper
 	if !sp.dirAB {
 		from, to = "B", "A"
 	}
-	if sp.prelude > 0 {
-		_ = w.send("A", 1, []byte("hello"))
-		_, _, _ = w.recvf("B")
-		_ = w.send("B", 1, []byte("world!"))
-		_, _, _ = w.recvf("A")
+	if sp.wrap {
+		// the leading IV word passes 2^32 after two frames: base word + counter must WRAP, every frame
+		// keeps a nonce of its own (a clamp or a saturating add would make later frames share one)
+		var ivA, ivB [16]byte
+		copy(ivA[:], []byte{0xff, 0xff, 0xff, 0xfe, 1, 2, 3, 4, 5, 6, 7, 8, 9, 10, 11, 12})
+		copy(ivB[:], []byte{0xff, 0xff, 0xff, 0xfd, 21, 22, 23, 24, 25, 26, 27, 28, 29, 30, 31, 32})
+		fa := &blobFields{flags: 1 | 4 | 8, key: keyBytes(9), eiv: ivA, div: ivB, ectr: 1, dctr: 1, fs: make([]byte, 32), fr: make([]byte, 32)}
+		fb := &blobFields{flags: 1 | 4 | 8, key: keyBytes(9), eiv: ivB, div: ivA, ectr: 1, dctr: 1, fs: make([]byte, 32), fr: make([]byte, 32)}
+		_ = w.importBlob("A", buildBlob(fa))
+		_ = w.importBlob("B", buildBlob(fb))
+	} else {
+		if sp.prelude > 0 {
+			_ = w.send("A", 1, []byte("hello"))
+			_, _, _ = w.recvf("B")
+			_ = w.send("B", 1, []byte("world!"))
+			_, _, _ = w.recvf("A")
+		}
+		w.key("A", 9)
+		w.key("B", 9)
 	}
-	w.key("A", 9)
-	w.key("B", 9)
 	src := w.ep(from)
 	base := len(src.sent)
 	var msgs [][]byte
@@ -948,6 +987,16 @@ func gcmNearWrap(c *Ctx, idx int) Case {
 			if start+uint32(i) != 0xffffffff {
 				c.Violate(Violation{Property: "C12", Key: "C12:early-refusal", What: "send refused before the counter limit", Ops: w.ops, Expected: "ok", Observed: err.Error()})
 			}
+			// the refusal is permanent: a caller that keeps sending is refused every time, and
+			// nothing reaches the wire (a counter that wrapped on the refused attempt would start
+			// again at the base IV — the nonce of the session's first frame)
+			for k := 0; k < 3; k++ {
+				before := len(w.pending["B"])
+				if err2 := w.send("A", 1, randBytes(c, 1+c.Rng.Intn(10))); err2 == nil || len(w.pending["B"]) != before {
+					c.Violate(Violation{Property: "C12", Key: "C12:refusal-not-permanent", What: "after refusing to send at the counter limit the stream sent a later frame (the counter wrapped)", Ops: append([]string{}, w.ops...), Expected: "err counterMax again, nothing written", Observed: fmt.Sprintf("attempt %d after the refusal: err=%v, %d bytes written", k+1, err2, len(w.pending["B"])-before)})
+					break
+				}
+			}
 			break
 		}
 		if uint64(start)+uint64(i) >= 0xffffffff {
@@ -1105,7 +1154,11 @@ func handoffHistory(c *Ctx, idx int) Case {
 			traffic++
 		case 2: // encryption switched off
 			w.crypto(from, false)
-			_, _ = w.export(from)
+			if blob, err := w.export(from); err == nil {
+				// ---- property oracle C15: export is refused whenever the stream is not encrypting ----
+				c.Violate(Violation{Property: "C15", Key: "C15:export-accepted-while-not-encrypting", What: "ExportCryptoState returned a blob although encryption is switched off on the stream",
+					Ops: append([]string{}, w.ops...), Expected: "refused", Observed: fmt.Sprintf("a %d-byte blob", len(blob))})
+			}
 			w.crypto(from, true)
 		default:
 			_ = w.send(from, 1, randBytes(c, c.Rng.Intn(40)))
